@@ -38,6 +38,30 @@ def gen_ops(chk, reg, per_len, full_lens=True):
     return ops
 
 
+BACKEND_CFGS = ["cpuoff", "forcesoft", "compact", "softcompact", "kuzsoft", "kuzcompact", "serpentloop"]
+
+
+def two_stage(chk, cfgs, first, invert, what):
+    """first: ops whose output feeds the inverse op built by invert(op, out); the inverse must give back the input"""
+    outs, _ = chk.run_family(cfgs, first, family=what)
+    for cn in cfgs:
+        impl = outs.get(cn, [])
+        ops2, want = [], []
+        for op, out in zip(first, impl):
+            if out.startswith(("err", "panic", "abort", "unsupported", "bad-op")):
+                chk.violation(f"{op[:150]} -> {out}", {"kind": "direct-oracle", "config": cn, "op": op, "impl": out,
+                                                       "oracle": "an accepted input must be processed"})
+                continue
+            o2, w = invert(op, out)
+            ops2.append(o2)
+            want.append(w)
+        o2s, _ = chk.run_family([cn], ops2, family=what + "-inverse")
+        for op, w, back in zip(ops2, want, o2s.get(cn, [])):
+            if back != w:
+                chk.violation(op[:150] + f" [{cn}]", {"kind": "direct-oracle", "config": cn, "op": op, "impl": back, "expected": w,
+                                                     "oracle": "the inverse operation must return the original input"})
+
+
 def run(chk, tier):
     chk.proof_obligations("BlockCiphers.Thm.C01")
     quick = tier == "quick"
@@ -53,3 +77,41 @@ def run(chk, tier):
         t = op.split(" ")
         chk.case((t[1], t[2], t[3]), nontrivial=(set(t[2]) != {"0"}), sample=op if chk.rng.below(400) == 0 else None)
     chk.run_family(cfgs, ops, oracle=oracle)
+    # every backend / build configuration: the types whose code depends on the configuration
+    hot = [op for op in gen_ops(chk, [e for e in reg if e["name"].startswith(("Aes", "Kuz", "Serpent"))], 12 if quick else 300)]
+    for op in hot:
+        t = op.split(" ")
+        chk.case((t[1], t[2], t[3]), nontrivial=(set(t[2]) != {"0"}))
+    chk.run_family(BACKEND_CFGS if quick else BACKEND_CFGS + ["cpuoff-release"], hot, oracle=oracle)
+    # Threefish under any tweak, both entry points, both orders
+    r = chk.rng
+    tf = []
+    for sz in (256, 512, 1024):
+        for i in range(12 if quick else 600):
+            k, tw, b = (r.structured(sz // 8), r.structured(16), r.structured(sz // 8)) if i % 3 == 0 else (r.bytes(sz // 8), r.bytes(16), r.bytes(sz // 8))
+            for o in ("enc", "dec", "encu64", "decu64"):
+                tf.append(f"tf {sz} {hx(k)} {hx(tw)} {o} {hx(b)}")
+            chk.case(("tf", sz, hx(k), hx(tw), hx(b)), nontrivial=any(tw))
+    inv = {"enc": "dec", "dec": "enc", "encu64": "decu64", "decu64": "encu64"}
+
+    def tf_inv(op, out):
+        t = op.split(" ")
+        return f"tf {t[1]} {t[2]} {t[3]} {inv[t[4]]} {out}", t[5]
+    two_stage(chk, cfgs, tf, tf_inv, "tf")
+    # BelT wide block, both orders: every length 32..=120, a sample up to 300, and lengths past the byte boundaries of the
+    # round counter (256 rounds at 2033 bytes, 512 at 4081)
+    wb = []
+    lens = list(range(32, 121)) + [127, 128, 129, 160, 161, 255, 256, 257, 300, 2032, 2033, 2049, 4081, 5003]
+    if not quick:
+        lens += list(range(121, 301)) + [8192, 8193, 16400, 33000]
+    for L in lens:
+        for i in range(1 if (quick or L > 300) else 10):
+            k, d = r.bytes(32), (r.structured(L) if i % 2 else r.bytes(L))
+            wb.append(f"wblock enc {hx(k)} {hx(d)}")
+            wb.append(f"wblock dec {hx(k)} {hx(d)}")
+            chk.case(("wblock", L, hx(k), hx(d)[:48]))
+
+    def wb_inv(op, out):
+        t = op.split(" ")
+        return f"wblock {'dec' if t[1] == 'enc' else 'enc'} {t[2]} {out}", t[3]
+    two_stage(chk, cfgs, wb, wb_inv, "wblock")
